@@ -445,7 +445,31 @@ def _long_text(rng, kind):
     return 'a' * pre + rng.choice(['"', '\\', '\t', '\n', '\\\\', '""', '\\"']) + 'b' * rng.randrange(0, 700)
 
 
+ENGINE_MODE = [False]     # the binary format cannot hold '\x1f' (STRING_SEP, asserted by BinStrDict.serialise)
+EDGE_CORES = ['', '5', '-17', '1.5', '0', '--', '-', '.', 'abc', 'a_b1', '1e5', '+1']
+EDGE_WS = ['\n', '\r', '\r\n', ' ', '\t', '\x0b', '\x0c', '\x01', '\x1c', '\x1f', '\x7f', '\x85', '\xa0', '\u2028']
+
+
+def edge_texts():
+    """Every class of text the writer treats specially (all digits, digits with - / ., empty, plain identifier, ...)
+    with a single leading / trailing / inner blank or control character."""
+    out = []
+    for core in EDGE_CORES:
+        out.append(core)
+        for ws in EDGE_WS:
+            out += [core + ws, ws + core, core + ws + core]
+    seen, res = set(), []
+    for t in out:
+        if t not in seen:
+            seen.add(t); res.append(t)
+    return res
+
+
 def plain_default(rng):
+    if rng.random() < 0.12 and not ENGINE_MODE[0]:
+        t = rng.choice(edge_texts())
+        if not (PLAIN_MODE[0] and ('\\' in t or '\r' in t)):
+            return t
     r = rng.random()
     if r < 0.25:
         return ''
@@ -496,7 +520,7 @@ def gen_kv(rng, name, opts):
         vals, seen = [], set()
         for _ in range(rng.randrange(0, 6)):
             v = rng.choice([str(rng.randrange(-3, 40)), '0.5', ident(rng), 'a b', '', '1e3', "it's", '+1', ' 1', '1_0', '-.5', 'inf',
-                            free_text(rng, rng.randrange(1, 8), nasty=0.5)])
+                            free_text(rng, rng.randrange(1, 8), nasty=0.5)] + ([rng.choice(edge_texts())] * 3 if not PLAIN_MODE[0] else []))
             if v in seen:
                 continue
             seen.add(v)
@@ -558,6 +582,7 @@ def gen_fgd(rng, opts=None):
     from srctools.const import FileType
     opts = dict(opts or {})
     PLAIN_MODE[0] = bool(opts.get('plain'))
+    ENGINE_MODE[0] = bool(opts.get('engine'))
     fgd = FGD()
     n_ents = opts.get('n_ents') or rng.randrange(1, 7)
     used = set()
